@@ -25,7 +25,7 @@ from prompt_toolkit.utils import take_using_weights
 
 ID = "C12"
 DRIVER = "drv_c12"
-PROPS = ["Ptk.Props.C12"]
+PROPS = ["Ptk.Props.C12", "Ptk.Props.C12Gen", "Ptk.Props.C12Loop", "Ptk.Props.C12Grow"]
 LEVEL_TEXT = ("Lean 4 theorems over an executable model of Dimension, take_using_weights (explicit stream state "
               "machine, integer cross-multiplication), _child_generators/_grow_sizes and the two divide functions: "
               "termination for every list of valid dimensions incl. weight 0, too-small iff the minimums do not fit, "
@@ -58,10 +58,11 @@ PARTIAL_SCOPE = ["the drawing of each child inside its region (Window.write_to_s
                  "region handed to it", "nested splits are covered through sum/max_layout_dimensions only",
                  "VSplit.write_to_screen cross-axis height = write_position.height (modelled as such)"]
 
-TIME_LIMIT = 1.5
+TIME_LIMIT = 1.0     # CPU seconds (ITIMER_VIRTUAL: a busy loop burns CPU, a descheduled process does not)
+CONFIRM_LIMIT = 3.0  # a first time-out is confirmed once with a longer limit before it counts as a hang
 
 
-class Hang(Exception):
+class Hang(BaseException):
     pass
 
 
@@ -72,26 +73,35 @@ def _on_alarm(*_a):
 _hangs = 0
 
 
-def guarded(f):
-    """run f() under a SIGALRM watchdog; returns ('ok', value) | ('hang', None) | ('exc', name)"""
-    global _hangs
-    old = signal.signal(signal.SIGALRM, _on_alarm)
-    limit = TIME_LIMIT if _hangs < 2 else 0.03  # once hanging is established, do not burn the budget
-    signal.setitimer(signal.ITIMER_REAL, limit)
+def _run_limited(f, limit):
+    old = signal.signal(signal.SIGVTALRM, _on_alarm)
+    signal.setitimer(signal.ITIMER_VIRTUAL, limit)
     try:
         try:
             v = f()
             return ("ok", v)
         finally:
-            signal.setitimer(signal.ITIMER_REAL, 0)
+            signal.setitimer(signal.ITIMER_VIRTUAL, 0)
     except Hang:
-        _hangs += 1
         return ("hang", None)
     except Exception as e:  # noqa
         return ("exc", type(e).__name__)
     finally:
-        signal.setitimer(signal.ITIMER_REAL, 0)
-        signal.signal(signal.SIGALRM, old)
+        signal.setitimer(signal.ITIMER_VIRTUAL, 0)
+        signal.signal(signal.SIGVTALRM, old)
+
+
+def guarded(f):
+    """run f() under a CPU-time watchdog; returns ('ok', value) | ('hang', None) | ('exc', name)"""
+    global _hangs
+    if _hangs >= 2:  # hanging is established on this tree: do not burn the budget
+        return _run_limited(f, 0.03)
+    r = _run_limited(f, TIME_LIMIT)
+    if r[0] == "hang":
+        r = _run_limited(f, CONFIRM_LIMIT)
+        if r[0] == "hang":
+            _hangs += 1
+    return r
 
 
 _APP = None
